@@ -11,7 +11,7 @@ from .. import estimators as E, gen
 RULE = ('ENUMERATED: 17 estimators x applicable methods of {fit, transform, pair_distance, pair_score, score_pairs, '
         'predict, decision_function, score, calibrate_threshold} x {no preprocessor, array preprocessor} x the '
         'malformation grammar (ndim 0..4 off the documented one, tuple size 1..5 != expected, zero samples, zero '
-        'features, NaN/+inf/-inf, str / object dtype, ragged nested list, feature count d+-1 / 1 / 2d, NaN reached through '
+        'features, NaN/+inf/-inf (also inside a point whose label is unknown), str / object dtype, ragged nested list, feature count d+-1 / 1 / 2d, NaN reached through '
         'the preprocessor, pair labels {0,2,-2,0.5,"a"}, label-length mismatch, n_components in {0,-1,d+1}) - every '
         'cell once; GENERATED: Hypothesis draws the cell plus the size of the otherwise well-formed input and the '
         'position of the bad entry; EQUIVALENCE: integral training/query data as list / int32 / int64 / Fortran / '
@@ -34,6 +34,7 @@ IDX_MALF = ['idx-tuple1', 'idx-tuple2', 'idx-tuple3', 'idx-tuple4', 'idx-tuple5'
             'idx-nan-row', 'idx-ndim+2']
 Y_MALF = ['y-short', 'y-long', 'y-label-0', 'y-label-2', 'y-label--2', 'y-label-0.5', 'y-label-a']
 NC_MALF = ['n_components=0', 'n_components=-1', 'n_components=d+1']
+UNL_MALF = ['nan-in-unlabeled-point', 'inf-in-unlabeled-point']
 
 
 def methods_of(name):
@@ -64,6 +65,8 @@ def input_kind(name, method):
 
 def applicable(name, method, preproc, malf):
   kind, ts, needs_y = input_kind(name, method)
+  if malf in UNL_MALF:
+    return method == 'fit' and name in E.SUPERVISED
   if malf in NC_MALF:
     return method == 'fit' and 'n_components' in E.option_space(name, 3, 2)
   if malf in Y_MALF:
@@ -93,7 +96,7 @@ def cells(name):
   out = []
   for method in methods_of(name):
     for preproc in (False, True):
-      for malf in FORM_MALF + IDX_MALF + Y_MALF + NC_MALF:
+      for malf in FORM_MALF + IDX_MALF + Y_MALF + NC_MALF + UNL_MALF:
         if applicable(name, method, preproc, malf):
           out.append(dict(est=name, method=method, preproc=preproc, malf=malf, n=4, pos=0))
   return out
@@ -191,7 +194,15 @@ def check_cell(case, stats):
     base = well_formed(kind, ts, n, d, rs)
     y = np.where(np.arange(n) % 2 == 0, 1, -1) if needs_y else None
   args = None
-  if malf in NC_MALF:
+  if malf in UNL_MALF:
+    # a point whose label is unknown (-1) is still part of the data: non-finite entries there must be rejected too
+    j = pos % len(base)
+    Xb = base.copy()
+    Xb[j, pos % Xb.shape[1]] = np.nan if malf.startswith('nan') else np.inf
+    yb = np.array(y).copy()
+    yb[j] = -1
+    args = [Xb, yb]
+  elif malf in NC_MALF:
     p2 = dict(params)
     p2['n_components'] = {'n_components=0': 0, 'n_components=-1': -1, 'n_components=d+1': d + 1}[malf]
     p2.pop('init', None)
